@@ -164,6 +164,14 @@ Proof.
     destruct (fget idx l); [discriminate|reflexivity].
 Qed.
 
+Lemma next_idx_nonzero : forall l idx, next_idx l = Some idx -> idx <> 0.
+Proof.
+  intros l idx H. unfold next_idx in H. destruct (fmax l <? 254).
+  - inversion H. lia.
+  - unfold first_free in H. apply find_some in H. destruct H as [H _].
+    apply in_map_iff in H. destruct H as (n & <- & Hn). apply in_seq in Hn. lia.
+Qed.
+
 Lemma has_fab_true : forall l i, has_fab l i = true -> exists f, fget i l = Some f.
 Proof. unfold has_fab. intros l i H. destruct (fget i l) as [f|]; [eauto|discriminate]. Qed.
 
@@ -212,6 +220,30 @@ Proof.
   unfold remove_pase. intros x keep l H. apply in_map_iff in H.
   destruct H as (y & Hx & Hy). apply filter_In in Hy. destruct Hy as [Hy _]. exists y. split; [exact Hy|].
   destruct (is_pase y && opt_is keep (s_id y)); auto.
+Qed.
+
+Lemma In_remove_pase_pase : forall x keep l,
+  In x (remove_pase keep l) ->
+  exists y, In y l /\ (x = y \/ (x = set_exp y /\ is_pase y = true)).
+Proof.
+  unfold remove_pase. intros x keep l H. apply in_map_iff in H.
+  destruct H as (y & Hx & Hy). apply filter_In in Hy. destruct Hy as [Hy _]. exists y. split; [exact Hy|].
+  destruct (is_pase y); cbn [andb] in Hx; [|auto]. destruct (opt_is keep (s_id y)); auto.
+Qed.
+
+Lemma keep_if_on_some : forall f keep l k,
+  keep_if_on f keep l = Some k -> exists s', In s' l /\ s_id s' = k /\ s_fab s' = f.
+Proof.
+  unfold keep_if_on. intros f keep l k H. destruct keep as [k0|]; [|discriminate].
+  destruct (sget k0 l) as [s'|] eqn:G; [|discriminate].
+  destruct (s_fab s' =? f) eqn:E; [|discriminate]. inversion H; subst k0.
+  apply N.eqb_eq in E. destruct (sget_In _ _ _ G) as [G1 G2]. eauto.
+Qed.
+
+Lemma usable_flags : forall s, usable s = true -> s_exp s = false /\ s_res s = false.
+Proof.
+  intros s U. unfold usable in U. apply andb_true_iff in U. destruct U as [U1 U2].
+  apply negb_true_iff in U1, U2. auto.
 Qed.
 
 Lemma ids_remove_for_fabric : forall i keep l,
